@@ -146,6 +146,9 @@ def check_case(case):
     text = case["pdb"]
     grid = tuple(case["grid"])
     opt = ["-g"] + [repr(x) for x in grid]
+    if case.get("cfgspec"):
+        from vlib import cfgs
+        opt += cfgs.options(case["cfgspec"])
     rec = observe.run(text, opt, name="a", keep_mol=True)
     if rec["error"]:
         return [], {"labels": ["error:" + rec["error"]["type"]]}
@@ -160,6 +163,13 @@ def check_case(case):
     shifted = any(abs(m - p) > 0.01 for _q, m, p in sites)
     labels = ["acids-only" if acids and not bases else "bases-only" if bases and not acids else
               "none-titratable" if not sites else "mixed"]
+    if case.get("cfgspec"):
+        # a custom model pKa took effect when a group's model pKa is not the tabulated one of its type
+        table = mol.version.parameters.model_pkas
+        if any(g.titratable and abs(g.model_pka - table.get(g.residue_type, g.model_pka)) > 1e-9
+               for g in mol.conformations["AVR"].groups):
+            labels.append("custom-model-pka-in-effect")
+        labels.append("parameter-variant")
     return v, {"labels": labels, "nontrivial": bool(acids and bases and shifted)}
 
 
@@ -328,11 +338,27 @@ def run_shard(ctx):
             w0 = draw(st.sampled_from([0.0, 0.0, -5.0, 2.0, 6.0, 9.5]))
             w1 = w0 + draw(st.sampled_from([14.0, 4.0, 1.0, 20.0, 0.3]))
             windows.append((w0, w1, draw(st.sampled_from([1e-4, 1e-1, 1e-2, 1e-3, 1e-6, 0.5]))))
-        return summ, text, grid, api_grid, windows
+        spec = None
+        if draw(st.integers(0, 3)) == 0:
+            # model pKa values from a parameter file: the whole table shifted and/or custom values for single atoms of
+            # the residues (hetero and protein) that occur in the structure
+            spec = {}
+            if draw(st.booleans()):
+                spec["shift_model_pkas"] = draw(st.sampled_from([0.35, -0.6, 1.25]))
+            atoms = sorted({(a.resn.strip(), a.aname.strip()) for a in pdbio.atoms_of(pdbio.parse(text))
+                            if a.rec == "HETATM" and a.aname.strip()[:1] in ("N", "O", "S")})
+            atoms += [("LYS", "NZ"), ("TYR", "OH"), ("CYS", "SG"), ("ASP", "CG"), ("GLU", "CD"), ("HIS", "CG"),
+                      ("ARG", "CZ")]
+            picks = draw(st.lists(st.sampled_from(atoms), max_size=3, unique=True))
+            if picks or not spec:
+                spec["extra"] = ["custom_model_pkas %s-%s %.2f" % (r, n, draw(st.sampled_from([2.1, 5.71, 8.4, 11.3])))
+                                 for r, n in picks] or ["custom_model_pkas XYZ-N1 5.00"]
+        return summ, text, grid, api_grid, windows, spec
 
     def body(t):
-        summ, text, grid, api_grid, windows = t
-        case = {"pdb": text, "grid": list(grid), "api_grid": list(api_grid), "windows": [list(w) for w in windows]}
+        summ, text, grid, api_grid, windows, spec = t
+        case = {"pdb": text, "grid": list(grid), "api_grid": list(api_grid), "windows": [list(w) for w in windows],
+                "cfgspec": spec}
         v, info = check_case(case)
         info["sample"] = {"structure": summ, "grid": grid, "api_grid": api_grid, "pI_windows": windows}
         ctx.account(case, v, info)
